@@ -85,6 +85,8 @@ type Site struct {
 	Val       string        `json:"val"` // per taint problem (calls only)
 	Bt        string        `json:"bt"`  // per slicing problem
 	DirSink   string        `json:"dir_sink"`
+	EntrySink string        `json:"entry_sink"` // IsEntrypointNode with the problem's IsSink, per taint problem
+	Noi       bool          `json:"noi"`        // taint.IsNodeOfInterest (config-wide IsSomeSource / IsSomeSink)
 	Nodes     []CallNodeOut `json:"nodes"`
 }
 
@@ -113,6 +115,8 @@ type Op struct {
 	Src    string `json:"src"`
 	Sink   string `json:"sink"`
 	Bt     string `json:"bt"`
+	EntrySink string `json:"entry_sink"`
+	Noi    bool   `json:"noi"`
 	Syn    bool   `json:"synthetic_node"`
 	SynSnk string `json:"syn_sink"`
 }
@@ -283,6 +287,7 @@ func regexMode(in, out string) {
 // matchCase is one direct matcher query.
 type matchCase struct {
 	Specs    []map[string]string `json:"specs"`
+	Problems [][]map[string]string `json:"problems"` // some-* roles: the role's identifier list of each problem, in order
 	Compiled bool                `json:"compiled"`
 	Role     string              `json:"role"`
 	Cand     map[string]string   `json:"cand"`
@@ -330,10 +335,41 @@ func matchMode(in, out string) {
 			v = config.TaintSpec{Validators: specs}.IsValidator(cand)
 		case "backtrace":
 			v = config.SlicingSpec{BacktracePoints: specs}.IsBacktracePoint(cand)
-		case "some-source":
-			v = config.Config{TaintTrackingProblems: []config.TaintSpec{{}, {Sources: specs}}}.IsSomeSource(cand)
-		case "some-sink":
-			v = config.Config{TaintTrackingProblems: []config.TaintSpec{{}, {Sinks: specs}}}.IsSomeSink(cand)
+		case "some-source", "some-sink", "some-sanitizer", "some-validator", "some-backtrace":
+			cfg := config.Config{}
+			for _, pl := range c.Problems {
+				l := make([]config.CodeIdentifier, len(pl))
+				for j, s := range pl {
+					l[j] = cidOf(s)
+					if c.Compiled {
+						l[j] = config.NewCodeIdentifier(l[j])
+					}
+				}
+				switch c.Role {
+				case "some-source":
+					cfg.TaintTrackingProblems = append(cfg.TaintTrackingProblems, config.TaintSpec{Sources: l})
+				case "some-sink":
+					cfg.TaintTrackingProblems = append(cfg.TaintTrackingProblems, config.TaintSpec{Sinks: l})
+				case "some-sanitizer":
+					cfg.TaintTrackingProblems = append(cfg.TaintTrackingProblems, config.TaintSpec{Sanitizers: l})
+				case "some-validator":
+					cfg.TaintTrackingProblems = append(cfg.TaintTrackingProblems, config.TaintSpec{Validators: l})
+				case "some-backtrace":
+					cfg.SlicingProblems = append(cfg.SlicingProblems, config.SlicingSpec{BacktracePoints: l})
+				}
+			}
+			switch c.Role {
+			case "some-source":
+				v = cfg.IsSomeSource(cand)
+			case "some-sink":
+				v = cfg.IsSomeSink(cand)
+			case "some-sanitizer":
+				v = cfg.IsSomeSanitizer(cand)
+			case "some-validator":
+				v = cfg.IsSomeValidator(cand)
+			case "some-backtrace":
+				v = cfg.IsSomeBacktracePoint(cand)
+			}
 		default:
 			die("unknown role %s", c.Role)
 		}
@@ -515,6 +551,10 @@ func main() {
 					s.DirSink = bits(nT, func(i int) bool {
 						return taint.IsMatchingCodeIDWithCallee(tsOf(i).IsSink, nil, ins.(ssa.Node))
 					})
+					s.EntrySink = bits(nT, func(i int) bool {
+						return analysisutil.IsEntrypointNode(state.PointerAnalysis, ins.(ssa.Node), tsOf(i).IsSink)
+					})
+					s.Noi = taint.IsNodeOfInterest(state, ins.(ssa.Node))
 					if summary != nil {
 						type kn struct {
 							k string
@@ -578,6 +618,10 @@ func main() {
 					op.Src = bits(nT, func(i int) bool { return taint.IsSourceNode(state, tsOf(i), n) })
 					op.Sink = bits(nT, func(i int) bool { return taint.IsMatchingCodeIDWithCallee(tsOf(i).IsSink, nil, n) })
 					op.Bt = bits(nS, func(i int) bool { return backtrace.IsInterProceduralEntryPoint(state, ssOf(i), n) })
+					op.EntrySink = bits(nT, func(i int) bool {
+						return analysisutil.IsEntrypointNode(state.PointerAnalysis, n, tsOf(i).IsSink)
+					})
+					op.Noi = taint.IsNodeOfInterest(state, n)
 					if summary != nil {
 						if sn, ok := summary.SyntheticNodes[ins]; ok {
 							op.Syn = true
